@@ -22,7 +22,7 @@ RULE = (
     "another shape, rename, attribute added / changed / removed on each geometry variable in turn, two "
     "attribute values swapped, another convention class} must change it and give pairwise different "
     "keys; every variant is built from scratch from its spec.  The whole key table is recomputed in child "
-    "interpreters with PYTHONHASHSEED in {0, 1, 12345, random} and must be identical.  History level: "
+    "interpreters with PYTHONHASHSEED in {0..5, 12345, random} and must be identical.  History level: "
     "every history of length <= 3 (quick) / 4 (thorough) over {key(d), d.copy(), d.copy(deep=True), hold a "
     "reference to an attribute value, assign a data variable, key(latest copy)}, replayed from scratch on "
     "datasets built in memory and on datasets written to netCDF and reopened: every key must equal the "
@@ -46,7 +46,7 @@ SPECS = [
 
 
 def bounds(tier):
-    return {'specs': len(SPECS), 'hash_seeds': ['0', '1', '12345', 'random'], 'history_depth': 3 if tier == 'quick' else 4}
+    return {'specs': len(SPECS), 'hash_seeds': ['0', '1', '2', '3', '4', '5', '12345', 'random'], 'history_depth': 3 if tier == 'quick' else 4}
 
 
 def cases(tier):
@@ -86,6 +86,18 @@ def variants(spec):
     yield 'global-attributes', 'same', ds
 
     names = geometry_names(fresh())
+    # the same values held in another memory layout (as after .T, transpose(), meshgrid(indexing='ij'))
+    ds = fresh()
+    changed = False
+    for name in names:
+        if ds[name].ndim >= 2:
+            was_coord = name in ds.coords
+            ds[name] = (ds[name].dims, np.asfortranarray(ds[name].values), ds[name].attrs)
+            if was_coord:
+                ds = ds.set_coords(name)
+            changed = True
+    if changed:
+        yield 'fortran-memory-order', 'same', ds
     for name in names:
         ds = fresh()
         var = ds[name]
@@ -196,7 +208,7 @@ def run_table(case, rec):
 def run_seeds(case, rec):
     fp = "C16/value/process"
     procs = {}
-    for seed in ('0', '1', '12345', 'random'):
+    for seed in ('0', '1', '2', '3', '4', '5', '12345', 'random'):
         child_env = dict(os.environ)
         child_env['PYTHONHASHSEED'] = seed
         child_env['PYTHONPATH'] = env.VERIF
